@@ -20,7 +20,8 @@ var errGetter = errors.New("scripted getter failure")
 
 // scriptGetter: a trusted getter over one chain with a request log and failure injection.
 type scriptGetter struct {
-	softAll  bool // GetByHeight serves headers that soft-fail every verification
+	base     uint64 // chain[i] is at height base+i+1
+	softAll  bool   // GetByHeight serves headers that soft-fail every verification
 	mu       sync.Mutex
 	chain    []*vhdr.Header // index h-1
 	log      []string       // "H:<height>", "R:<from>-<to>", "Head", "HeadT:<trusted>", "G"
@@ -87,9 +88,10 @@ func (g *scriptGetter) GetByHeight(_ context.Context, h uint64) (*vhdr.Header, e
 	if g.failH[h] {
 		return nil, errGetter
 	}
-	if h == 0 || int(h) > len(g.chain) {
+	if h <= g.base || h-g.base > uint64(len(g.chain)) {
 		return nil, header.ErrNotFound
 	}
+	h -= g.base
 	if g.softAll {
 		// an unhelpful getter: whatever it serves soft-fails every verification, adjacent or not
 		c := g.chain[h-1]
